@@ -30,7 +30,8 @@ def configs(tier):
         archs = [(1, 1), (2, 3), (3, 2), (2, 1)]
     else:
         archs = [(nv, nh) for nv in range(1, 6) for nh in range(1, 7)]
-    return [{"kind": k, "nv": nv, "nh": nh} for k in ("positive", "complex") for (nv, nh) in archs] + [{"generic": "every shape"}, {"lean": "size-generic lemmas"}, {"independence": "complex"}]
+    hist = [{"kind": "positive", "nv": 2, "nh": 3, "via": "deepcopy"}, {"kind": "complex", "nv": 2, "nh": 1, "via": "deepcopy"}, {"kind": "complex", "nv": 1, "nh": 1, "via": "pickle"}]
+    return [{"kind": k, "nv": nv, "nh": nh} for k in ("positive", "complex") for (nv, nh) in archs] + hist + [{"generic": "every shape"}, {"lean": "size-generic lemmas"}, {"independence": "complex"}]
 
 
 def canaries(tier):
@@ -75,6 +76,9 @@ def run_config(ctx, cfg):
     if cfg.get("generic"):
         from contracts import gsets
         return gsets.run(ctx, "C01")
+    from drivers import common as _DC
+    _DC.VIA[0] = cfg.get("via")        # the object under contract is reached as a copy of another one (drivers/common.copied)
+    _DC.SYM_ORIG[0] = True
     from drivers import common as DC
     kind, nv, nh = cfg["kind"], cfg["nv"], cfg["nh"]
     canary = getattr(ctx, "canary", None)
@@ -142,6 +146,17 @@ def run_config(ctx, cfg):
         p1 = state.probability(space)                                  # default Z = 1.0
         for r in range(D):
             ctx.eq("probability/default-Z[row=%d]" % r, p1._arr[r], alg.exp(-Eo[r]))
+        # Z given as a Python number (what `normalization(space).item()` hands out), at full double precision; each form
+        # on its own, so that one form leaving the modelled fragment does not hide a refutation of another
+        for zc in (0.1, 7, 3.0e39, "symbolic"):
+            zval, zP = (st.SymFloat(Zp), Zp) if zc == "symbolic" else (zc, alg.to_P(zc))
+            try:
+                pc = state.probability(space, zval)
+            except (alg.Unmodelled, alg.ValueDependent) as e:
+                ctx.undecided("probability/Z = %r (Python number)" % (zc,), str(e)[:200])
+                continue
+            for r in range(D):
+                ctx.eq("probability/Z = %r (Python number): exp(-E)/Z[row=%d]" % (zc, r), pc._arr[r] * zP, alg.exp(-Eo[r]))
         pv = state.probability(space[D - 1])
         ctx.holds("probability/vector-form-shape", tuple(pv.shape) == ())
         ctx.eq("probability/vector-form", pv._arr[()], alg.exp(-Eo[D - 1]))
